@@ -87,9 +87,10 @@ def main():
     s = open(f"{harn}/Cargo.toml").read().replace('path = "/repo"', f'path = "{repo}"')
     open(f"{harn}/Cargo.toml", "w").write(s)
     os.remove(f"{repo}/tests/seeded_demo.rs")
-    henv = {"CARGO_TARGET_DIR": f"{WORK}/target-harness"}
+    # own target directory per run: concurrent runs must never execute each other's binary
+    henv = {"CARGO_TARGET_DIR": f"{work}/target-harness"}
     rc, o = sh("(cargo build --release --offline && cargo build --profile unchecked --offline) 2>&1 | grep -E '^error' -A8", cwd=harn, timeout=1800, env=henv)
-    vp = f"{WORK}/target-harness/release/vp"
+    vp = f"{work}/target-harness/release/vp"
     if "error" in o or not os.path.exists(vp):
         print("HARNESS BUILD FAILED", o); meta["status"] = "harness does not build against the change"; meta["build_error"] = o[-600:]
     else:
